@@ -80,18 +80,13 @@ def argsortAsc (g : List α) : List (Chan α) :=
 def doWF (g : List α) (P N Es : α) : Except PyErr (List α × α) :=
   doWFWith (argsortAsc g) g.length P N Es
 
+/-- the instance the compiled driver runs: exact rational arithmetic with core Lean's `Rat`
+    operations (elaborated here, in a Mathlib-free file; `Properties/C12.lean` proves it is
+    the `ℚ` instance of the polymorphic text the theorems are about) -/
+def doWFRat (g : List Rat) (P N Es : Rat) : Except PyErr (List Rat × Rat) := doWF g P N Es
+
 /-- formula of the returned level before commit `fix: doWF water level` (kept as the
     record of finding C12:doWF:water-level-missing-Es): `vtOptPaux[0] + noiseVar/g_best` -/
 def muPreFix (aux0 N : α) (best : Chan α) : α := aux0 + N / best.1
-
-/-- number of channels the loop keeps (driver only) -/
-def keptCount (asc : List (Chan α)) (P N Es : α) : Nat := (dropLoop N Es P asc).length
-
-/-- the values `sum(Ps)` the loop compares with `P`, each with the `minMu` it was computed
-    from (driver only: lets the harness skip the discrete comparison of the number of
-    dropped channels when a test is within rounding distance of equality) -/
-def loopTests (N Es : α) : List (Chan α) → List (α × α)
-  | [] => []
-  | w :: rest => ((excess N Es w (w :: rest)).sum, level N Es w) :: loopTests N Es rest
 
 end PyPhysim.C12
